@@ -136,9 +136,9 @@ pub fn parse_arguments(to_parse: &str) -> Result<Vec<Unifiable>, String> {
                     // In this case, it is part of the number.
                     let mut next_ch = 'x';
                     if i < length_chrs - 1 { next_ch = chrs[i + 1]; }
-                    let mut prev_ch = ' ';
-                    if i > 0 { prev_ch = chrs[i]; }
-                    if prev_ch == ' ' && (next_ch < '0' || next_ch > '9') {
+                    // The sign must be the first character of the argument.
+                    let at_start = argument.trim().len() == 1;
+                    if !at_start || next_ch < '0' || next_ch > '9' {
                         has_non_digit = true;
                     }
                 }
@@ -389,11 +389,15 @@ pub fn parse_term(to_parse: &str) -> Result<Unifiable, String> {
         return Ok(sfunc);
     }
 
-    for ch in &chrs {
+    for (i, ch) in chrs.iter().enumerate() {
         if *ch >= '0' && *ch <= '9' {
             has_digit = true;
         } else if *ch == '.' {
             has_period = true;
+        } else if (*ch == '+' || *ch == '-') && i == 0 && chrs.len() > 1 &&
+                  chrs[1] >= '0' && chrs[1] <= '9' {
+            // Plus or minus in front of a number: +7, -3.8
+            // (as in parse_arguments())
         } else {
             has_non_digit = true;
         }
